@@ -143,7 +143,15 @@ func (encryptor *PostgreSQLTokenizeQuery) OnBind(ctx context.Context, parseResul
 	}
 
 	bindData := postgresql.ParseSearchQueryPlaceholdersSettings(parseResult, encryptor.schemaStore)
-	if len(bindData) > len(indexes) {
+	// bindData also lists the placeholders of searchable columns of the same statement (those belong to the
+	// observer of searchable encryption): only the placeholders of tokenized columns have to be among the indexes
+	ownPlaceholders := 0
+	for _, setting := range bindData {
+		if setting.IsTokenized() {
+			ownPlaceholders++
+		}
+	}
+	if ownPlaceholders > len(indexes) {
 		return values, false, nil
 	}
 	// Finally, once we know which values to replace with tokenized values, do this replacement.
